@@ -23,6 +23,10 @@ type Pat struct {
 	// whole stanza and hands the stanza embedded in the wrapper to the same
 	// multiplexer again while its own dispatch is still in progress.
 	Redispatch bool `json:",omitempty"`
+
+	// Err: the handler returns an error after reading (and writing) what its
+	// program says.
+	Err bool `json:",omitempty"`
 }
 
 // Tag identifies the registration in reports.
@@ -215,14 +219,28 @@ func (r *refMux) lookup(kind, typ string, name xml.Name, withWild bool) (Pat, st
 
 // msgType is the type a message is of: the attribute, normal when absent.
 func effectiveType(e *El) string {
-	if e.NoType {
-		if e.Local == "message" {
-			return "normal"
+	if e.Local == "message" {
+		// RFC 6121 5.2.2 and the documentation of stanza.MessageType: a message
+		// without a type, or with a value that is not one of the five defined
+		// ones, is a normal message
+		if !e.NoType {
+			for _, t := range kindTypes["message"] {
+				if e.Type == t {
+					return t
+				}
+			}
 		}
+		return "normal"
+	}
+	if e.NoType {
 		return ""
 	}
 	return e.Type
 }
+
+// unknownMessageTypes are spellings of the type attribute that are not one of
+// the five defined message types.
+var unknownMessageTypes = []string{"fancy", "CHAT", "Normal", " normal", "chat ", "", "get", "available"}
 
 func (r *refMux) expect(e *El) Expect {
 	name := xml.Name{Space: e.Space, Local: e.Local}
@@ -356,6 +374,9 @@ func genStanza(r *rand.Rand, kind, typ, ns string, id int) *El {
 	if kind == "presence" && typ == "" {
 		e.NoType = true // type='' is not a legal way to spell available
 	}
+	if kind == "message" && typ == "normal" && !e.NoType && r.Intn(2) == 0 {
+		e.Type = unknownMessageTypes[r.Intn(len(unknownMessageTypes))]
+	}
 	nk := 0
 	switch x := r.Intn(10); {
 	case x < 2:
@@ -433,6 +454,20 @@ func genCase(r *rand.Rand) *Case {
 	for i, n := 0, r.Intn(4); i < n; i++ {
 		add(genPat(r, "top", "", tnames[r.Intn(len(tnames))]))
 	}
+	// namespace-only top-level patterns that are a stanza content namespace
+	// (Handle accepts them; it refuses every name whose local part is iq,
+	// message or presence): as for any other element they are consulted before
+	// the stanza routers, so they take the stanzas of that namespace too
+	otherNS := "jabber:server"
+	if elemNS == otherNS {
+		otherNS = "jabber:client"
+	}
+	if r.Intn(10) == 0 {
+		add(genPat(r, "top", "", xml.Name{Space: elemNS}))
+	}
+	if r.Intn(20) == 0 {
+		add(genPat(r, "top", "", xml.Name{Space: otherNS}))
+	}
 	// forwarding: a handler that re-dispatches an embedded stanza through the
 	// same multiplexer (the way forwarded / carbon-copied stanzas are handled)
 	var fwdFocus []kt
@@ -466,6 +501,8 @@ func genCase(r *rand.Rand) *Case {
 			e := &El{Space: topSpaces[r.Intn(2)], Local: topLocals[r.Intn(2)], ID: fmt.Sprintf("e%d", i), Sep: seps[r.Intn(len(seps))]}
 			if r.Intn(8) == 0 {
 				e.Space = "urn:top3"
+			} else if r.Intn(8) == 0 {
+				e.Space = elemNS // not a stanza, but in the stanza namespace
 			}
 			if r.Intn(8) == 0 {
 				e.Local = "t3"
@@ -510,6 +547,22 @@ func genCase(r *rand.Rand) *Case {
 		}
 	}
 	c.Concurrent = !c.hasForward() && r.Intn(8) == 0
+	// handler errors: in one case in five a third of the handlers return an
+	// error after running their program
+	if r.Intn(5) == 0 {
+		for i := range c.Pats {
+			if !c.Pats[i].Redispatch && r.Intn(3) == 0 {
+				c.Pats[i].Err = true
+			}
+		}
+	}
 	c.Served = r.Intn(12) == 0
+	for _, p := range c.Pats {
+		if p.Err {
+			// a handler error ends a served session; what the session does with
+			// it is not this property's business
+			c.Served = false
+		}
+	}
 	return c
 }
